@@ -1,3 +1,4 @@
+import os
 """absint — forward abstract interpreter over μMIR (part 1: state, places, rvalues).
 
 Domains: intervals with known trailing zeros on scalar leaves, variant sets for enums,
@@ -429,6 +430,30 @@ class State:
             if leaf is not None and leaf.is_const():
                 repl = LinForm.constant(leaf.lo)
         if repl is None:
+            # no equality to re-express v through: project it out of each guarded fact with its interval (as eliminate() does for the plain
+            # constraints), so that e.g.  idx == len - v - 1  with v >= 0 leaves  idx + 1 <= len
+            leaf = self.leaf(v)
+            if leaf is None:
+                return
+            lo = leaf.lo if leaf.lo > -(1 << 62) else None
+            hi = leaf.hi if leaf.hi < (1 << 62) else None
+            new = {}
+            for key, fs in self.guards.items():
+                out = []
+                for f in fs:
+                    if f[0] in ("le", "eq") and v in f[1].terms:
+                        a = f[1].terms[v]
+                        rest = LinForm({x: k for x, k in f[1].terms.items() if x != v}, f[1].const)
+                        forms = [(a, rest)] if f[0] == "le" else [(a, rest), (-a, -rest)]
+                        for a_, rest_ in forms:          # a_*v + rest_ <= 0
+                            b = lo if a_ > 0 else hi
+                            if b is not None and rest_.terms:
+                                out.append(("le", rest_ + a_ * b))
+                        # the fact itself stays: kill_guards combines the facts that mention a dying variable with each other
+                    out.append(f)
+                if out:
+                    new[key] = frozenset(out)
+            self.guards = new
             return
         sv = repl.single_var()
         new = {}
